@@ -132,6 +132,8 @@ mod native {
             announce_case("/a", *b"00000000000000000000", 64).await;
             announce_case("", *b"AAAAABBBBBCCCCC12345", 150).await;
             announce_case("?passkey=abc", *b"AAAAABBBBBCCCCC12345", 7).await;
+            announce_case("/announce", *b"AAAAABBBBBCCCCC12345", 0).await;            // nothing left: `left=0` is still sent
+            announce_case("/announce?x=0", *b"00000000000000000000", 0).await;
         });
     }
 }
